@@ -62,6 +62,52 @@ static void cu_alt_content(int variant, unsigned char *dst, const unsigned char 
     dst[len] = 0;
 }
 
+/* ---- the run-time debug level as a dimension of every case -------------------------------------------------------
+ * libast_debug_level is a process-wide switch (>= 1: a failed ASSERT exits; >= 3, >= 5: trace statements).  The functions
+ * of C12 / C13 / C17 are pure: every step is executed at level 0 (this result is the one compared with the reference) and
+ * again at every other level of VH_LEVELS (the specification's DebugLevels, e.g. "0,1,3,5"); the rendered result must be
+ * identical.  The library's trace / warning text goes to `stderr`, which points at /dev/null while a level > 0 is active
+ * (the sanitizer writes to descriptor 2 directly and is not affected).  An exit() inside a step is reported by common.h. */
+static int cu_levels[8]; static int cu_nlevels = 0;
+static FILE *cu_devnull = NULL;
+static vh_sb cu_r2 = {0, 0, 0}, cu_s2 = {0, 0, 0};
+static void cu_levels_init(void) {
+    const char *e = getenv("VH_LEVELS");
+    cu_nlevels = 0;
+    while (e && *e && cu_nlevels < 8) {
+        char *end; long v = strtol(e, &end, 10);
+        if (end == e) break;
+        cu_levels[cu_nlevels++] = (int) v;
+        e = (*end == ',') ? end + 1 : end;
+    }
+    if (!cu_nlevels) cu_levels[cu_nlevels++] = 0;
+    cu_devnull = fopen("/dev/null", "w");
+    { static char iobuf[4096]; if (cu_devnull) setvbuf(cu_devnull, iobuf, _IOFBF, sizeof(iobuf)); }   /* no allocation inside a script */
+    sb_need(&cu_r2, 1 << 16); sb_need(&cu_s2, 64);
+}
+static FILE *cu_real_stderr = NULL;
+static void cu_set_level(int level) {
+    if (level > 0 && cu_devnull) { if (!cu_real_stderr) cu_real_stderr = stderr; stderr = cu_devnull; }
+    else if (cu_real_stderr) { stderr = cu_real_stderr; cu_real_stderr = NULL; }
+    DEBUG_LEVEL = (unsigned int) level;
+}
+typedef const char *(*cu_step_fn)(const vh_step_t *, vh_sb *, vh_sb *);
+static const char *cu_step_at_levels(cu_step_fn f, const vh_step_t *st, vh_sb *ret, vh_sb *state) {
+    static char msg[200]; const char *bad; int k;
+    cu_set_level(0);
+    if ((bad = f(st, ret, state))) return bad;
+    for (k = 0; k < cu_nlevels; k++) {
+        if (cu_levels[k] == 0) continue;
+        sb_reset(&cu_r2); sb_reset(&cu_s2);
+        cu_set_level(cu_levels[k]);
+        bad = f(st, &cu_r2, &cu_s2);
+        cu_set_level(0);
+        if (bad) { snprintf(msg, sizeof(msg), "at_debug_level_%d:%s", cu_levels[k], bad); return msg; }
+        if (strcmp(cu_r2.p, ret->p)) { snprintf(msg, sizeof(msg), "result_depends_on_the_debug_level:differs_at_level_%d", cu_levels[k]); return msg; }
+    }
+    return NULL;
+}
+
 /* NUL-terminated C string as [codes] */
 static void sb_cstr(vh_sb *b, const unsigned char *s) {
     if (!s) { sb_putc(b, '-'); return; }
